@@ -99,7 +99,7 @@ def run_for(pid, verbose=True, only=None):
     if verbose:
         for v, st, msg in results:
             if st != "ok":
-                print(f"  [{st}] {v['id']}: {msg[:700]}")
+                print(f"  [{st}] {v['id']}: {msg[:500]}")
     # record for the evidence file
     ev = Path(os.environ.get("VERIF_EVIDENCE_DIR", str(VERIF / "evidence"))) / f"{pid}.json"
     if ev.exists():
